@@ -116,6 +116,7 @@ SETTINGS = {
     # --- rename detection, algorithm, heuristics, context
     "renames_copies": {"cfg": [("diff", "renames", "copies"), ("status", "renames", "copies")]},
     "renames_false": {"cfg": [("diff", "renames", "false")]},
+    "renames_true": {"cfg": [("diff", "renames", "true")]},
     "algo_patience": {"cfg": [("diff", "algorithm", "patience")]},
     "algo_histogram": {"cfg": [("diff", "algorithm", "histogram")]},
     "algo_minimal": {"cfg": [("diff", "algorithm", "minimal")]},
@@ -170,6 +171,8 @@ CONTEXTS = {
     "c_dashC_abs": (["-c", "c12.x=y", "-C", "{root}"], "out"),
     "nopager_root": (["--no-pager"], "root"),
     "c_root": (["-c", "c12.x=y"], "root"),
+    "c_renames_copies_root": (["-c", "diff.renames=copies"], "root"),
+    "c_renames_false_sub": (["-c", "diff.renames=false"], "sub"),
     "gitdir_out": (["--git-dir={gitdir}", "--work-tree={root}"], "out"),
     "worktree": ([], "root"),
     "worktree_subdir": ([], "sub"),
@@ -879,7 +882,9 @@ def gtable(ctx, obligations, cov):
 
 
 # ====================================================================== inventory
-def inventory(ctx, obligations, cov):
+def inventory(ctx, obligations, cov, violations, template_opts):
+    pins_of = {"PatchParse": O_REQUIRED[1] + ["--diff-algorithm=default", "--indent-heuristic"], "NumstatParse": O_REQUIRED[2],
+               "RawDiffParse": O_REQUIRED[3]}
     if not ctx.model_ok:
         return
     out = C.run([C.driver_path("profile"), "c12-inventory"]).stdout
@@ -896,6 +901,26 @@ def inventory(ctx, obligations, cov):
     ok = summary is not None and summary[1:4] == ["1", "1", "1"]
     obligations.append(("tie:inventory every parsed internal invocation fixes the components its parser needs "
                         "(C12_inventory_pinned re-evaluated on the regenerated inventory)", ok, str(summary)))
+    # call-site templates: a literal option placed after a literal `--` is read by git as a pathspec
+    for x in rows:
+        toks = x["argv"].split(" ")
+        if "--" in toks:
+            k = toks.index("--")
+            late = [t for t in toks[k + 1:] if t.startswith("-") and not t.startswith("<")]
+            for t in toks[:k]:
+                if t.startswith("-") and not t.startswith("<") and t not in ("-C", "-c"):
+                    template_opts.setdefault(next((y for y in toks if not y.startswith("-") and not y.startswith("<")), ""), set()).add(t)
+            if late:
+                violations.append((f"{x['file']}::{x['fn']} builds `git {x['argv']}`: the option(s) {late} are pushed after the `--` "
+                                   f"separator, where git reads them as pathspecs (the {x['profile']} profile does not re-insert "
+                                   f"{[t for t in late if t not in pins_of.get(x['profile'], [])]})",
+                                   {"kind": "template", "site": x["file"] + "::" + x["fn"], "template": x["argv"],
+                                    "options_after_separator": late, "profile": x["profile"]}))
+        else:
+            sub = next((y for y in toks if not y.startswith("-") and not y.startswith("<")), "")
+            for t in toks:
+                if t.startswith("-") and not t.startswith("<") and t not in ("-C", "-c"):
+                    template_opts.setdefault(sub, set()).add(t)
     kinds = {0: "opaque", 1: "patch", 2: "numstat", 3: "pathlist", 4: "blame", 5: "status", 6: "formatted", 7: "grep"}
     byk, byp = {}, {}
     for x in rows:
@@ -1178,8 +1203,80 @@ def quotepath_monitor(ctx, obligations, violations, cov):
     return kinds["mixed"] + kinds["nonascii"] + kinds["always_quoted"]
 
 
+# ====================================================================== rename detection x an AI-made move and copy
+MV_CONFIGS = {"default": ([], "root"), "renames_false": (["renames_false"], "root"), "renames_true": (["renames_true"], "root"),
+              "renames_copies": (["renames_copies"], "root"), "cmdline_renames_copies": ([], "c_renames_copies_root"),
+              "cmdline_renames_false_sub": ([], "c_renames_false_sub")}
+MV_PATHS = ["new.txt", "util.txt", "lib.txt", "d/moved.rs", "d/copy.rs", "d/orig.rs"]
+
+
+def mv_history(args):
+    """an agent MOVES a file and edits it, COPIES a file and edits it, inside one commit (all paths named in the checkpoint);
+    then an amend with one more agent line.  With rename/copy detection the moved/copied lines are not `added`."""
+    base, cfgname = args
+    settings, context = MV_CONFIGS[cfgname]
+    sim = CSim(base, "mv" + cfgname, settings=settings, context=context)
+    try:
+        old = "".join(f"old line {i}\n" for i in range(1, 11))
+        lib = "".join(f"lib line {i}\n" for i in range(1, 9))
+        src = "".join(f"fn f{i}() {{}}\n" for i in range(1, 13))
+        files = {"old.txt": old, "lib.txt": lib, "d/src.rs": src, "d/orig.rs": src.replace("fn f", "fn g")}
+        sim.init(files)
+        sim.setup_context({"base": files})
+        touched = ["old.txt", "new.txt", "lib.txt", "util.txt", "d/src.rs", "d/moved.rs", "d/orig.rs", "d/copy.rs"]
+        sim.checkpoint_human(touched)
+        os.rename(os.path.join(sim.repo, "old.txt"), os.path.join(sim.repo, "new.txt"))
+        sim.write("new.txt", old + "agent line A\nagent line B\n")
+        sim.write("util.txt", lib + "util extra\n")
+        sim.write("lib.txt", lib + "lib extra\n")
+        os.rename(os.path.join(sim.repo, "d/src.rs"), os.path.join(sim.repo, "d/moved.rs"))
+        sim.write("d/moved.rs", "// moved by the agent\n" + src)
+        sim.write("d/copy.rs", files["d/orig.rs"] + "fn copied() {}\n")
+        sim.checkpoint_ai("s1", touched, tool=TOOL)
+        sim.realgit("add", "-A")
+        obs = []
+        rc, _, err = sim.git("commit", "-q", "-m", "agent work")
+        obs.append(dict(_obs(sim, MV_PATHS), step="commit", rc=rc))
+        sim.checkpoint_human(["new.txt"])
+        sim.write("new.txt", old + "agent line A\nagent line B\nagent line C\n")
+        sim.checkpoint_ai("s2", ["new.txt"], tool=TOOL)
+        sim.realgit("add", "-A")
+        rc, _, err = sim.git("commit", "-q", "--amend", "-m", "agent work, amended")
+        obs.append(dict(_obs(sim, MV_PATHS), step="amend", rc=rc))
+        return {"cfg": cfgname, "obs": obs, "log": sim.log[-40:]}
+    finally:
+        shutil.rmtree(sim.base, ignore_errors=True)
+
+
+# option tokens of the diff family (the oracle's own list): after a `--` git reads them as pathspecs, never as options
+DIFF_OPTION_TOKENS = {"--no-color", "--no-renames", "--no-ext-diff", "--no-textconv", "--no-relative", "--no-prefix", "--color",
+                      "--ext-diff", "--textconv", "--relative", "--find-renames", "--find-copies", "--find-copies-harder", "-M", "-C",
+                      "-z", "-p", "--patch", "--raw", "--numstat", "--name-only", "--name-status", "--cached", "--stat", "--stdin",
+                      "--no-abbrev", "--no-commit-id", "-r", "-w", "--line-porcelain", "--porcelain", "--indent-heuristic",
+                      "--no-indent-heuristic", "--patience", "--histogram", "--minimal", "-s", "--no-notes", "--no-walk", "--reverse",
+                      "--all", "--topo-order", "--ancestry-path", "--date-order", "--oneline"}
+DIFF_OPTION_PREFIXES = ("--src-prefix=", "--dst-prefix=", "--diff-algorithm=", "--inter-hunk-context=", "--color=", "--relative=",
+                        "--find-renames=", "--find-copies=", "--unified=", "--format=", "--pretty=", "--untracked-files=",
+                        "--porcelain=", "--encoding=", "--short=", "--since=", "--max-count=", "--author=")
+
+
+def option_after_dd(argv, template_opts=()):
+    """tokens after `--` that are options (of the oracle's list, or options the call-site templates of this subcommand
+    place before `--`): git reads them as pathspecs"""
+    k = o_find_sub(argv)
+    if k is None:
+        return []
+    _, d = split_dd(argv[k + 1:])
+    import re
+    return [t for t in d[1:] if t in DIFF_OPTION_TOKENS or t in template_opts or t.startswith(DIFF_OPTION_PREFIXES)
+            or re.fullmatch(r"-U\d+", t)]
+
+
 # ====================================================================== executed-argv monitor
-def argv_monitor(base):
+LAST_DIFFS = []
+
+
+def argv_monitor(base, template_opts=None, misplaced=None):
     """a recording git stand-in (git_path): every diff-family command git-ai actually executes for one history
     carries --no-pager and the neutralising options"""
     sim = CSim(base, "mon")
@@ -1195,18 +1292,32 @@ def argv_monitor(base):
             f.write('{"git_path": "%s"}' % rec)
         script = hist.gen_script(C.Rng(7).fork("mon"))
         run_history(sim, script)
+        # and a commit that certainly carries agent lines in two files (the post-commit diff is then limited by pathspecs)
+        paths = sorted(script["base"])[:2]
+        for p_ in paths:
+            sim.checkpoint_human([p_])
+            sim.write(p_, (sim.read(p_) or "") + "monitor agent line\n")
+            sim.checkpoint_ai("s1", [p_], tool=TOOL)
+        sim.realgit("add", "-A")
+        sim.git("commit", "-q", "-m", "monitor")
         lines = [ln.split("\0")[1:-1] for ln in open(log, encoding="utf-8", errors="replace").read().split("\n") if ln.startswith("R\0")]
         bad, n_diff = [], 0
+        template_opts = template_opts or {}
+        misplaced = misplaced if misplaced is not None else []
         for a in lines:
             k = o_find_sub(a)
             if k is None:
                 continue
             sub, tail = a[k], a[k + 1:]
             b, _ = split_dd(tail)
+            late = option_after_dd(a, template_opts.get(sub, ()))
+            if late and not (len(a) > 1 and a[k] == "commit"):
+                misplaced.append({"argv": a, "options_after_separator": late})
             parsed = (sub == "diff") or (sub == "show" and "--numstat" in b) or (sub == "diff-tree")
             if not parsed or sub == "diff-tree":
                 continue
             n_diff += 1
+            LAST_DIFFS.append(a)
             if "--no-pager" not in a[:k]:
                 bad.append(f"{a}: no --no-pager")
             for o in ("--no-ext-diff", "--no-textconv", "--no-color", "--no-relative"):
@@ -1242,14 +1353,37 @@ def run(ctx):
                                f"files {files[:4]}",
                                {"kind": "quotepath-matrix", "config": q["cfg"], "step": a["step"], "files": files,
                                 "default": {f: a[f] for f in what}, "variant": {f: b[f] for f in what}, "commands": q["log"]}))
+    # ---- diff.renames x an AI-made move + edit and copy + edit inside one commit
+    mres = C.parallel_map(mv_history, [(ctx.scratch, c) for c in MV_CONFIGS])
+    mref = next((q for q in mres if q.get("cfg") == "default"), None)
+    for q in mres:
+        if "error" in q:
+            violations.append(("engine error (move/copy history): " + q["error"][-300:], q))
+        elif mref is not None and q["obs"] != mref["obs"]:
+            k = next(i for i, (a, b) in enumerate(zip(mref["obs"], q["obs"])) if a != b)
+            a, b = mref["obs"][k], q["obs"][k]
+            what = [f for f in ("rc", "note", "blame", "stats") if a[f] != b[f]]
+            violations.append((f"{', '.join(what)} after `{a['step']}` of an agent's move+edit / copy+edit differ between the default "
+                               f"configuration and {q['cfg']}: note {json.dumps(a['note'], sort_keys=True)[:300]} vs "
+                               f"{json.dumps(b['note'], sort_keys=True)[:300]}",
+                               {"kind": "move-copy", "config": q["cfg"], "step": a["step"], "default": {f: a[f] for f in what},
+                                "variant": {f: b[f] for f in what}, "commands": q["log"]}))
+    if mref is not None:
+        cov["move_copy_history"] = {"configs": sorted(MV_CONFIGS), "note_after_commit": mref["obs"][0]["note"]}
+    cov["evaluations"] += len(mres)
     if qref is not None:
         cov["quotepath_matrix"] = {"names": len(QP_NAMES), "configs": sorted(QP_CONFIGS), "steps": [o["step"] for o in qref["obs"]],
                                    "files_attributed_after_commit": len(qref["obs"][0]["note"] or {})}
     cov["evaluations"] += len(qres)
     gtable(ctx, obligations, cov)
-    inventory(ctx, obligations, cov)
+    template_opts = {}
+    inventory(ctx, obligations, cov, violations, template_opts)
 
-    bad, n_diff, n_all = argv_monitor(ctx.scratch)
+    misplaced = []
+    bad, n_diff, n_all = argv_monitor(ctx.scratch, template_opts, misplaced)
+    for m in misplaced[:3]:
+        violations.append((f"git-ai executed `git {' '.join(m['argv'])}`: {m['options_after_separator']} stand after `--` and are read "
+                           f"as pathspecs, not as options", dict(m, kind="executed-argv")))
     obligations.append(("monitor:every diff-family command git-ai executed in a replayed history carries --no-pager and the "
                         "neutralising options", not bad and n_diff > 0, "; ".join(bad[:2])[:400] or f"{n_diff} of {n_all} git processes"))
 
